@@ -128,6 +128,15 @@ class Ctx:
     def note(self, s):
         self.notes.append(s)
 
+    def sample(self, docs, budget, what="behaviours"):
+        """Replay budget of the thorough tier: TLC's model check is always exhaustive; when it emitted more behaviours than the
+        budget a seeded uniform sample is replayed on the implementation (recorded in the evidence notes)."""
+        docs = list(docs)
+        if budget is None or self.quick or len(docs) <= budget:
+            return docs
+        self.note(f"{len(docs)} {what} emitted by TLC, seeded sample of {budget} replayed")
+        return self.rng.sample(docs, budget)
+
     # ---------------------------------------------------------------- evidence
     def write_evidence(self, status="ok"):
         os.makedirs(EVIDENCE_DIR, exist_ok=True)
